@@ -146,6 +146,26 @@ class RunEval:
         if isinstance(op, ast.FloorDiv):
             if isinstance(ax, Run) and sp.sympify(bx) == self.m:
                 r = ax.q
+            elif sp.sympify(bx) == self.m and isinstance(ax, sp.Basic):
+                # (a*m + b) // m == a + b // m; b = r + c with the run's remainder r (1 <= r <= m - 1, or r == 0) and a small constant c
+                pol = sp.Poly(sp.expand(ax), self.m)
+                if pol.degree() > 1:
+                    raise Undecided("floor division of a non-linear length")
+                a_ = pol.coeff_monomial(self.m)
+                b_ = sp.expand(pol.coeff_monomial(1))
+                rs = [s_ for s_ in b_.free_symbols]
+                c_ = b_.subs({s_: 0 for s_ in rs})
+                if not c_.is_Integer:
+                    raise Undecided("floor division: non-integer offset")
+                if not rs:
+                    if c_ in (0, -1):
+                        r = a_ + c_  # 0 // m == 0, -1 // m == -1 (m >= 2)
+                    else:
+                        raise Undecided(f"floor division: offset {c_}")
+                elif len(rs) == 1 and sp.expand(b_ - rs[0] - c_) == 0 and rs[0].is_positive and c_ in (0, -1):
+                    r = a_  # 0 <= r + c <= m - 1
+                else:
+                    raise Undecided("floor division: remainder term not of the form r + c")
             else:
                 raise Undecided("floor division of something that is not the run length by the maximum")
         elif isinstance(op, ast.Mod):
@@ -365,6 +385,20 @@ def _split_obligation(run, ix, spec, binary):
         if not isinstance(lengths, Seq):
             run.instance("N1", f.where, f"{what}: result is not a piece sequence - NOT decided", True, nontrivial=False)
             continue
+        # Python repeats a list ZERO times for a negative count: the symbolic total is only the total when the repetition count
+        # cannot be negative for any admissible run (q >= 0, the empty run q = 0, r = 0 included - a binary code that starts
+        # with a filled cell has a leading run of length 0)
+        cnt0 = sp.expand(lengths.count).subs(q, 0)
+        if cnt0.is_number and cnt0 < 0:
+            tail0 = sp.expand(sum(lengths.tail)).subs(q, 0)
+            L0 = sp.expand(L.value()).subs(q, 0)
+            if sp.expand(tail0 - L0) != 0:
+                run.obligation("N1", f.where, f"{what}: repetition count {lengths.count} is negative for the run of length {L0}: pieces {[str(x.subs(q, 0)) if hasattr(x, 'subs') else x for x in lengths.tail]}", False)
+                run.violation("N1", f.where, f"`{f.qualname}` repeats its full chunk `{lengths.count}` times; for a run of length {L0} (q = 0) that count is negative, Python repeats "
+                                             f"the list zero times and the pieces are {[str(sp.expand(x).subs(q, 0)) for x in lengths.tail]} - total {tail0}, not {L0}: cells are invented"
+                                             f"{' (a binary code starting with a filled cell has a leading run of length 0)' if binary else ''}",
+                              key=key_of("C13-N1", f.qualname, "r0" if r_zero else "r", "negative-count"))
+                continue
         total_ok = sp.expand(lengths.total() - L.value()) == 0
         small_ok = all(sp.expand(x - m) == 0 or x == 0 or x is r or sp.expand(x - r) == 0 for x in lengths.elements())
         count_ok = values is None or (isinstance(values, Seq) and sp.expand(values.length() - lengths.length()) == 0 and all(x == v for x in values.elements()))
@@ -390,7 +424,7 @@ def check(run):
 
     _split_obligation(run, ix, "trimesh.voxel.runlength:split_long_rle_lengths", binary=False)
     _split_obligation(run, ix, "trimesh.voxel.runlength:split_long_brle_lengths", binary=True)
-    run.floor("run-splitting obligations", run.obligations, 4)
+    run.floor("run-splitting cases examined (decided or recorded as not decided)", sum(1 for i_ in run.instances if i_["rule"] == "N1"), 4)
 
     # ------------------------------------------------------------------ N4 no silent narrowing inside the codecs
     run.rule("N4", "run-length codecs: an array allocated with the dtype of one operand does not receive another operand element-wise (numpy casts silently: "
@@ -595,6 +629,52 @@ def check(run):
         run.violation("V2", f.where, f"inverse_matrix is {rr}: not the (hash-keyed) inverse of the current matrix", key=key_of("C13-V2", "inverse"))
     run.assume("np.repeat / np.cumsum / fancy assignment act run by run (one run is modelled); 0 <= r < m and q >= 0 integers")
     run.assume("transformations.transform_points == M.p is proven under C04-R7 / C19-T7; losslessness of whole-sequence conversions and agreement of every encoding with the dense array are not decided")
+    # ------------------------------------------------------------------ V3 no memo entry of a voxel object survives a write of its hashed data
+    run.rule("V3", "voxel objects (VoxelGrid, Transform, encodings): no function keeps memo entries across a write of the object's hashed data (cache lock, "
+                   "exclude set, id_set): there is no reviewed invariance table for these classes, so every surviving entry is a stale one (inverse matrix, pitch, points)")
+    from ..effects import Effects
+    from ..preserve import check_surgery
+    ef = Effects(ix)
+
+    def _hashed(path):
+        if path and path[0] == "_data":
+            return path[1].strip("[]") if len(path) > 1 and path[1].startswith("[") else "*"
+        return None
+
+    def _rk(st, sim):
+        # a store into the translation column of the 4x4 only: `<x>.matrix[:3, 3] (+)= t` / `<x>._data['transform_matrix'][:3, 3] = t`
+        t_ = st.targets[0] if isinstance(st, ast.Assign) and len(st.targets) == 1 else (st.target if isinstance(st, ast.AugAssign) else None)
+        if isinstance(t_, ast.Subscript) and ast.unparse(t_.slice).replace(" ", "").strip("()") in (":3,3", "0:3,3"):
+            return {"transform_matrix": "translation"}
+        return None
+
+    V3_INVARIANCE = {(k_, "transform_matrix", "translation"): "depends on the linear 3x3 block only; a store into the translation column leaves it unchanged"
+                     for k_ in ("scale", "pitch", "unit_volume")}
+    n_v3 = n_surg = 0
+    for f_ in ix.all_functions:
+        if not f_.module.name.startswith("trimesh.voxel") or f_.kind in ("cached",) or f_.name == "__init__":
+            continue
+        if "_cache" not in ast.unparse(f_.node):
+            continue
+        owner_, cls_ = None, None
+        if f_.cls is not None and f_.parent is None and f_.params:
+            owner_, cls_ = f_.params[0], f_.cls
+        else:
+            continue
+        keys_ = set()
+        for k_ in cls_.mro:
+            for name_, g_ in k_.getters.items():
+                if g_.kind == "cached":
+                    keys_.add(name_)
+        n_v3 += 1
+        try:
+            if check_surgery(run, ef, f_, cls_, owner_, _hashed, _rk, lambda key: {("*", "value")}, keys_, V3_INVARIANCE, {}, None, "C13",
+                             r2="V3", r2b="V3", r6="V3", r8="V3"):
+                n_surg += 1
+        except AnalysisError as e_:
+            run.instance("V3", f_.where, f"cache surgery not analysable ({str(e_)[:80]}) - NOT decided", True, nontrivial=False)
+            run.assume(f"{f_.qualname}: cache surgery in the voxel package not analysable")
+    run.instance("V3", "trimesh/voxel", f"{n_v3} methods of voxel classes mention their cache; {n_surg} perform cache surgery", True)
     return {
         "explanation": "Symbolic evaluation of the two run-splitting routines over one run of length q*m + r whose piece count is symbolic "
         "(pattern x count + tail sequences), for r = 0 and r > 0; writer/reader agreement of the binvox header (line order, arity, count width); "
